@@ -439,6 +439,52 @@ def run(ctx):
     if not n_rx:
         ctx.unknown('R02ac', trm_, None, 'no regular expression literal found in the parser layer', construct='regex scan')
 
+    # ---- R02ad: a specification asked for by name is used only if it is the one asked for
+    ctx.rule('R02ad', 'the token reader turns the result of latex_context.get_specials_spec(specials_chars=<c>) into a specials '
+                      'token only on a path that has compared `<result>.specials_chars == <c>`: get_specials_spec() answers a '
+                      'failed lookup with the database\'s unknown-specials fallback (or None), so without the comparison a blank '
+                      'line in a document whose context does not define the paragraph specials becomes a specials node carrying '
+                      'the fallback specification instead of staying part of the text', 1)
+    n_gs = 0
+    for q_, f_ in sorted(trm_.functions.items()):
+        ld_ = {}
+        for a_ in ast.walk(f_):
+            if isinstance(a_, ast.Assign) and len(a_.targets) == 1 and isinstance(a_.targets[0], ast.Name):
+                ld_.setdefault(a_.targets[0].id, []).append(a_.value)
+        for nm_, vals_ in sorted(ld_.items()):
+            gets_ = [v_ for v_ in vals_ if isinstance(v_, ast.Call) and call_name(v_) == 'get_specials_spec']
+            if not gets_:
+                continue
+            asked_ = kwarg(gets_[0], 'specials_chars') or (gets_[0].args[0] if gets_[0].args else None)
+            if asked_ is None:
+                continue
+            at_ = unparse(asked_)
+            for c_ in iter_own(f_):
+                if not (isinstance(c_, ast.Call) and call_name(c_) in ('make_token', 'LatexToken')):
+                    continue
+                uses_ = [k_ for k_ in list(c_.args) + [k2_.value for k2_ in c_.keywords]
+                         if isinstance(k_, ast.Name) and k_.id == nm_]
+                if not uses_:
+                    continue
+                # the definition that reaches the use: the latest earlier assignment (a `= None` of an except arm aside)
+                prev_ = [v_ for v_ in vals_ if v_.lineno < c_.lineno and not (isinstance(v_, ast.Constant) and v_.value is None)]
+                if not prev_ or max(prev_, key=lambda v_: v_.lineno) not in gets_:
+                    continue
+                n_gs += 1
+                facts_ = {(unparse(t_), pol_) for t_, pol_ in atomic_facts(c_)}
+                ok_ = any((txt_, pol_) in facts_ for txt_, pol_ in (
+                    ('%s.specials_chars == %s' % (nm_, at_), True), ('%s == %s.specials_chars' % (at_, nm_), True),
+                    ('%s.specials_chars != %s' % (nm_, at_), False), ('%s != %s.specials_chars' % (at_, nm_), False)))
+                ctx.decide('R02ad', ok_, trm_, c_, '%s: token built from %s only after comparing its specials_chars with %s'
+                           % (q_, nm_, at_),
+                           '%s builds a token from %s = get_specials_spec(%s) on a path that has not compared %s.specials_chars '
+                           'with %s: when the context does not define these specials the lookup hands back the unknown-specials '
+                           'fallback, and the text (a blank line) is reported as a specials token with that specification '
+                           'instead of as characters' % (q_, nm_, at_, nm_, at_), construct='%s: token from get_specials_spec' % q_)
+    if not n_gs:
+        ctx.unknown('R02ad', trm_, None, 'no token built from a get_specials_spec() result in the token reader',
+                    construct='get_specials_spec use')
+
     # ---- R02aa (C17 P2/P4), R02ab (C10 R10h)
     ctx.rule('R02aa', 'the lookup tables cached on a parsing state are reused from the parent only when no field they depend on '
                       'changes: math opened inside math (`\\[ a \\hbox{if $x$ then} b \\]`) otherwise expects the OUTER closing '
